@@ -78,7 +78,7 @@ Theorem C08_linkadr_atomic : forall snr h p h',
   (ans <> 7 -> h_cf h' = h_cf h /\ h_rg h' = h_rg h) /\
   (ans = 7 -> exists d pw m,
       h_cf h' = set_cfg (h_cf h) d pw /\ h_rg h' = region_mask_set (h_rg h) m /\
-      (N.shiftr (nthN p 0) 4 = 15 /\ d = cf_data_rate (h_cf h) \/ N.shiftr (nthN p 0) 4 <> 15 /\ d = N.shiftr (nthN p 0) 4 /\ get_datarate (rg_id (h_rg h)) d <> None) /\
+      (N.shiftr (nthN p 0) 4 = 15 /\ d = cf_data_rate (h_cf h) \/ N.shiftr (nthN p 0) 4 <> 15 /\ d = N.shiftr (nthN p 0) 4 /\ uplink_dr (h_rg h) d <> None) /\
       (N.land (nthN p 0) 15 = 15 /\ pw = cf_tx_power (h_cf h) \/
        N.land (nthN p 0) 15 <> 15 /\ pw = tx_power_adjust (rg_id (h_rg h)) (N.land (nthN p 0) 15) /\ pw <> None)) /\
   h_nadr h' = O /\ h_known h' = true.
